@@ -15,7 +15,8 @@ RULE = ("cases (kind, FIRST, INC, K, slack, direction, skip set, --compute-from-
         "from LAST, a unit that does not apply (days between times, seconds between dates), a skip "
         "set of all seven days. Expected lines come from the reference calendar; the run is capped "
         "at 2x expected + 64 lines and 10 s. Non-trivial: >= 3 elements crossing a month / year / "
-        "midnight boundary, non-zero slack, a skip that removes an element, or a refusal class")
+        "midnight boundary, non-zero slack, (skip sets and --compute-from-last are drawn for every kind: "
+        "days, months incl. end-of-month starts, times incl. wrapping bounds, date-times),  a skip that removes an element, or a refusal class")
 ASSUMPTIONS = ["--alt-inc is not generated", "compound increments with months/years are not generated",
                "with --compute-from-last and skips, LAST is not on a skipped weekday"]
 
@@ -114,10 +115,29 @@ def gen_case(rnd, B):
         if (sign > 0 and last_n >= nn) or (sign < 0 and last_n <= nn):
             last_n = R.n_of(*seq[-1])
             slack = 0
-        exp = ["%04d-%02d-%02d" % s for s in seq]
+        skipargs, skips = _skipargs(rnd) if rnd.random() < 0.5 else ([], set())
+        cfl = rnd.random() < 0.25
+        first_n = R.n_of(y, m, d)
+        if cfl:
+            # anchored at LAST: LAST minus j increments, each taken in one step from LAST
+            if R.wday(last_n) in skips:
+                skips, skipargs = set(), []
+            ly, lm, ld = R.ymd(last_n)
+            seq = []
+            for j in range(0, K + 3):
+                e = R.add_months(ly, lm, ld, -j * k * sign * mul)
+                if not (1601 <= e[0] <= 4095):
+                    break
+                ne = R.n_of(*e)
+                if (sign > 0 and ne < first_n) or (sign < 0 and ne > first_n):
+                    break
+                seq.append(e)
+            seq.reverse()
+        exp = ["%04d-%02d-%02d" % e for e in seq if R.wday(R.n_of(*e)) not in skips]
         inc = "%s%d%s" % ("-" if sign < 0 else "", k, unit)
-        argv = ["--", "%04d-%02d-%02d" % (y, m, d), inc, R.f_ymd(last_n)]
-        return {"argv": argv, "exp": exp, "tag": "month:%s%s%s" % ("-" if sign < 0 else "+", unit, ":eom" if d >= 29 else ""),
+        argv = skipargs + (["--compute-from-last"] if cfl else []) + ["--", "%04d-%02d-%02d" % (y, m, d), inc, R.f_ymd(last_n)]
+        return {"argv": argv, "exp": exp, "tag": "month:%s%s%s%s%s" % ("-" if sign < 0 else "+", unit, ":eom" if d >= 29 else "",
+                                                                    ":skip" if skips else "", ":cfl" if cfl else ""),
                 "nt": len(exp) >= 3 or slack != 0}
     if kind == "time":
         unit, mul = rnd.choice((("h", 3600), ("m", 60), ("s", 1)))
@@ -136,10 +156,14 @@ def gen_case(rnd, B):
         last = (s0 + sign * (K * inc_s + slack)) % 86400
         exp = [R.hms((s0 + sign * j * inc_s) % 86400) for j in range(K + 1)]
         inc = "%s%d%s" % ("-" if sign < 0 else "", k, unit)
-        wraps = (sign > 0 and s0 + K * inc_s >= 86400) or (sign < 0 and s0 - K * inc_s < 0)
-        return {"argv": ["--", R.hms(s0), inc, R.hms(last)], "exp": exp,
-                "tag": "time:%s%s%s%s" % ("-" if sign < 0 else "+", unit, ":wrap" if wraps else "",
-                                          "@halfday" if inc_s * 2 == 86400 else ""),
+        wraps = (sign > 0 and s0 + K * inc_s + slack >= 86400) or (sign < 0 and s0 - K * inc_s - slack < 0)
+        cfl = rnd.random() < 0.25
+        if cfl:
+            # anchored at LAST: the same number of elements, shifted by the slack
+            exp = [R.hms((last - sign * j * inc_s) % 86400) for j in range(K, -1, -1)]
+        return {"argv": (["--compute-from-last"] if cfl else []) + ["--", R.hms(s0), inc, R.hms(last)], "exp": exp,
+                "tag": "time:%s%s%s%s%s" % ("-" if sign < 0 else "+", unit, ":wrap" if wraps else "",
+                                            "@halfday" if inc_s * 2 == 86400 else "", ":cfl" if cfl else ""),
                 "nt": len(exp) >= 3 and (wraps or slack != 0)}
     if kind == "dt":
         unit, mul = rnd.choice((("h", 3600), ("m", 60), ("s", 1), ("d", 86400), ("1d12h", 129600)))
@@ -153,10 +177,18 @@ def gen_case(rnd, B):
         slack = rnd.randrange(0, inc_s) if rnd.random() < 0.4 else 0
         last = t0 + sign * (K * inc_s + slack)
         f = lambda t: R.f_ymd(t // 86400) + "T" + R.hms(t % 86400)
-        exp = [f(t0 + sign * j * inc_s) for j in range(K + 1)]
+        ts = [t0 + sign * j * inc_s for j in range(K + 1)]
+        skipargs, skips = _skipargs(rnd) if rnd.random() < 0.4 else ([], set())
+        cfl = rnd.random() < 0.25
+        if cfl:
+            if R.wday(last // 86400) in skips:
+                skips, skipargs = set(), []
+            ts = [last - sign * j * inc_s for j in range(K, -1, -1)]
+        exp = [f(t) for t in ts if R.wday(t // 86400) not in skips]
         inc = unit if unit == "1d12h" else "%s%d%s" % ("-" if sign < 0 else "", k, unit)
-        return {"argv": ["--", f(t0), inc, f(last)], "exp": exp,
-                "tag": "dt:%s%s" % ("-" if sign < 0 else "+", unit), "nt": len(exp) >= 3}
+        return {"argv": skipargs + (["--compute-from-last"] if cfl else []) + ["--", f(t0), inc, f(last)], "exp": exp,
+                "tag": "dt:%s%s%s%s" % ("-" if sign < 0 else "+", unit, ":skip" if skips else "", ":cfl" if cfl else ""),
+                "nt": len(exp) >= 3}
     # refusal classes
     r = rnd.randrange(6)
     n0 = rnd.randrange(R.NMIN + 3000, R.NMAX - 3000)
